@@ -3,6 +3,7 @@ from .common import run_panic_inventory
 
 SCOPE = "engine"
 LEVEL = "other"
+PANIC_PROFILES = True
 EXPLANATION = (
     "Static analysis of the resolved MIR and of compiler-evaluated constants. R1: panic-site inventory of everything "
     "reachable from Fen::from_str, Fen::is_valid, Bitboard::from_fen_string, From<&Fen> for Bitboard and "
@@ -18,9 +19,13 @@ def entries(prog):
             "inkayaku_board::board::<Fen as From<&Bitboard>>::from"]
 
 
-def run(ctx):
+def run_panics(ctx):
     run_panic_inventory(ctx, "C12.R1", entries(ctx.prog),
                         "no unreviewed panic site is reachable from the FEN reader and writer",
-                        fn_floor=55, site_floor=40)
+                        fn_floor=55, site_floor=30)
+
+
+def run(ctx):
+    run_panics(ctx)
     from . import c12_struct
     c12_struct.run(ctx)
